@@ -7,6 +7,7 @@ use mmv_base::case::{scale, Case, Prop, PS};
 use mmv_base::ctx::{Ctx, S};
 use mmv_base::fmtutil::{fmt_debug, split_top};
 use mmv_base::kinds::Kind;
+use mmv_base::probe::{check_ordered, probe, ProbeOut, NPROBES};
 use mmv_base::tl::{self, Caged, Pk};
 use std::collections::BTreeMap;
 
@@ -78,7 +79,7 @@ fn build<KD: Kind, const N: usize>(s: &mut Set<KD::K, N>, ops: &[[u8; 4]], univ:
 
 /// Step one lazy iterator, checking at every prefix. `ext` turns an item into a `Y`.
 #[allow(clippy::too_many_arguments)]
-fn check_iter<KD: Kind, I, T>(cx: &mut Ctx, liar: bool, name: &str, mk: impl Fn() -> I, ext: impl Fn(T) -> Y + Copy, expect: &[u8], from_left: Option<(&BTreeMap<u8, u32>, &dyn Fn(usize) -> bool)>, bound: usize)
+fn check_iter<KD: Kind, I, T>(cx: &mut Ctx, liar: bool, name: &str, mk: impl Fn() -> I, ext: impl Fn(T) -> Y + Copy, expect: &[u8], from_left: Option<(&BTreeMap<u8, u32>, &dyn Fn(usize) -> bool)>, bound: usize, salt: usize)
 where
     I: Iterator<Item = T> + Clone + std::fmt::Debug,
 {
@@ -96,8 +97,16 @@ where
     let mut hints: Vec<(usize, Option<usize>)> = Vec::with_capacity(bound + 4);
     let mut folds: Vec<Option<Vec<Y>>> = Vec::with_capacity(bound + 4);
     let mut dbgs: Vec<Option<String>> = Vec::with_capacity(bound + 4);
+    let mut probes: Vec<(usize, ProbeOut<Y>)> = Vec::with_capacity(NPROBES * (bound + 4));
     loop {
         hints.push(it.size_hint());
+        if !liar {
+            // nth / last / fold / count / skip on clones taken at this prefix
+            let at = ys.len();
+            for which in 0..NPROBES {
+                probes.push((at, probe(cx, KD::NOALLOC, it.clone(), which, (salt + at + which) % 4, bound, ext)));
+            }
+        }
         let c = it.clone();
         let buf: Vec<Y> = Vec::with_capacity(bound + 8);
         let folded = lib::<KD, _>(cx, move || {
@@ -157,6 +166,10 @@ where
                 cx.chk(P08, false, "fold-vs-next", || format!("{name} after {i} items: fold panicked"));
             }
         }
+    }
+    for (at, po) in &probes {
+        let r = check_ordered(po, &ys[(*at).min(total)..], false);
+        cx.chk(P08, r.is_ok(), "adaptor", || format!("{name} after {at} of {total} items: {}", r.clone().err().unwrap_or_default()));
     }
     if let Some((ids, inside)) = from_left {
         for y in &ys {
@@ -233,17 +246,18 @@ pub fn run<KD: Kind, const N: usize, const M: usize>(case: &Case, cx: &mut Ctx) 
     }
     let ext = |k: &KD::K| Y { raw: KD::kraw(k), kid: KD::kid(k), ka: addr(k) };
     let bound = N + M;
+    let salt = case.mode as usize;
     let lc: &Caged<Set<KD::K, N>> = &l;
     let rc: &Caged<Set<KD::K, M>> = &r;
     let inside_l = |a: usize| lc.contains(a, std::mem::size_of::<KD::K>());
     cx.cur_op = "union";
-    check_iter::<KD, _, _>(cx, liar, "union", || lc.m.union(&rc.m), ext, &uni, None, bound);
+    check_iter::<KD, _, _>(cx, liar, "union", || lc.m.union(&rc.m), ext, &uni, None, bound, salt);
     cx.cur_op = "intersection";
-    check_iter::<KD, _, _>(cx, liar, "intersection", || lc.m.intersection(&rc.m), ext, &inter, Some((&ml, &inside_l)), bound);
+    check_iter::<KD, _, _>(cx, liar, "intersection", || lc.m.intersection(&rc.m), ext, &inter, Some((&ml, &inside_l)), bound, salt);
     cx.cur_op = "difference";
-    check_iter::<KD, _, _>(cx, liar, "difference", || lc.m.difference(&rc.m), ext, &diff, Some((&ml, &inside_l)), bound);
+    check_iter::<KD, _, _>(cx, liar, "difference", || lc.m.difference(&rc.m), ext, &diff, Some((&ml, &inside_l)), bound, salt);
     cx.cur_op = "symmetric_difference";
-    check_iter::<KD, _, _>(cx, liar, "symmetric_difference", || lc.m.symmetric_difference(&rc.m), ext, &sym, None, bound);
+    check_iter::<KD, _, _>(cx, liar, "symmetric_difference", || lc.m.symmetric_difference(&rc.m), ext, &sym, None, bound, salt);
     // difference_ref over an arena of fresh objects in the operands' iteration orders
     cx.cur_op = "difference_ref";
     {
@@ -266,7 +280,7 @@ pub fn run<KD: Kind, const N: usize, const M: usize>(case: &Case, cx: &mut Ctx) 
                 let hi = lo + arena_l.len() * std::mem::size_of::<KD::K>();
                 let in_arena = move |a: usize| a >= lo && a + std::mem::size_of::<KD::K>() <= hi || std::mem::size_of::<KD::K>() == 0;
                 let extr = |k: &KD::K| Y { raw: KD::kraw(k), kid: KD::kid(k), ka: addr(k) };
-                check_iter::<KD, _, _>(cx, liar, "difference_ref", || rl.difference_ref(&rr), extr, &diff, Some((&ids_l, &in_arena)), bound);
+                check_iter::<KD, _, _>(cx, liar, "difference_ref", || rl.difference_ref(&rr), extr, &diff, Some((&ids_l, &in_arena)), bound, salt);
             }
             let _ = tl::quiet(move || {
                 drop(rl);
